@@ -299,19 +299,30 @@ static void do_txt(Cur& c, std::ostream& o, const std::string& kind, const std::
 }
 
 // checkpoint: n objects (dv | csr at double/u64), registered in the given order, saved to a BinaryStream,
-// loaded by a fresh CheckpointControl and restored in the given restore order into fresh objects
-static void do_cp(Cur& c, std::ostream& o)
+// loaded by a fresh CheckpointControl and restored in the given restore order into fresh objects.
+// hexnames: identifiers are given as hex strings (any bytes: blanks, punctuation, long names);
+// indiv: every restore uses its own freshly loaded CheckpointControl (restore of one object alone)
+static std::string unhex(const std::string& h)
+{
+  std::string r;
+  if(h == "-") return r;
+  for(std::size_t i = 0; i + 1 < h.size(); i += 2) r.push_back(char(std::stoi(h.substr(i, 2), nullptr, 16)));
+  return r;
+}
+
+static void do_cp(Cur& c, std::ostream& o, bool hexnames, bool indiv)
 {
   typedef Kinds<double, std::uint64_t> K;
   Index n = c.idx();
-  std::vector<std::string> names, kinds;
+  std::vector<String> names; std::vector<std::string> kinds;
   std::vector<std::unique_ptr<K::DV>> dvs(n);
   std::vector<std::unique_ptr<K::CSR>> csrs(n);
   Dist::Comm comm = Dist::Comm::world();
   Control::CheckpointControl cp(comm);
   for(Index i = 0; i < n; ++i)
   {
-    names.push_back(c.str()); kinds.push_back(c.str());
+    std::string nm = c.str();
+    names.push_back(String(hexnames ? unhex(nm) : nm)); kinds.push_back(c.str());
     if(kinds.back() == "dv") { dvs[i].reset(new K::DV(K::dv(c))); cp.add_object(names.back(), *dvs[i]); }
     else { csrs[i].reset(new K::CSR(K::csr(c))); cp.add_object(names.back(), *csrs[i]); }
   }
@@ -319,14 +330,15 @@ static void do_cp(Cur& c, std::ostream& o)
   BinaryStream bs;
   cp.save(bs);
   o << "B "; show_hex(o, bs.data(), std::size_t(bs.size()));
-  Control::CheckpointControl cq(comm);
+  std::unique_ptr<Control::CheckpointControl> cq(new Control::CheckpointControl(comm));
   bs.seekg(0);
-  cq.load(bs);
+  cq->load(bs);
   for(auto k : order)
   {
+    if(indiv) { cq.reset(new Control::CheckpointControl(comm)); bs.seekg(0); cq->load(bs); }
     o << " ";
-    if(kinds[k] == "dv") { K::DV r; cq.restore_object(names[k], r, false); dump(o, r); o << " EQ " << (r == *dvs[k] ? 1 : 0); }
-    else { K::CSR r; cq.restore_object(names[k], r, false); dump(o, r); o << " EQ " << (r == *csrs[k] ? 1 : 0); }
+    if(kinds[k] == "dv") { K::DV r; cq->restore_object(names[k], r, false); dump(o, r); o << " EQ " << (r == *dvs[k] ? 1 : 0); }
+    else { K::CSR r; cq->restore_object(names[k], r, false); dump(o, r); o << " EQ " << (r == *csrs[k] ? 1 : 0); }
   }
 }
 
@@ -360,7 +372,12 @@ static void handle(const verif::Tokens& t, std::ostream& o)
   }
   else if(op == "cp")
   {
-    do_cp(c, o);
+    do_cp(c, o, false, false);
+  }
+  else if(op == "cpx")
+  {
+    Index indiv = c.idx();
+    do_cp(c, o, true, indiv != 0);
   }
   else o << "BAD-OP";
 }
